@@ -171,6 +171,33 @@ def fold_lookalike(rng, atoms):
     return atoms[:k] + [a[:j] + _FOLD_LOOKALIKES[a[j]] + a[j + 1:]] + atoms[k + 1:]
 
 
+# Characters that belong to the same Unicode CLASS as an ASCII character the HTML syntax cares about, but are not that
+# character: str.isdigit()/\\d/int() accept non-ASCII decimal digits, str.isspace()/\\s/strip() non-ASCII white space,
+# str.isalpha()/\\w non-ASCII letters.  Code that uses those instead of the ASCII-only tables of the standard behaves
+# differently on them.
+_DIGIT_LOOKALIKES = [0xFF10, 0x0660, 0x0966, 0x0E50]          # fullwidth, Arabic-Indic, Devanagari, Thai zero
+_SPACE_LOOKALIKES = ["\xa0", "\u2003", "\x0b", "\x1c", "\x1f", "\x85", "\u3000", "\u2028"]
+_CLASS_ATOMS = ["&#65;", "&#x41;", "&#1234;", "&#65", "&#x4a;b", "<a href=x y=z>", "<div class=a id=b>", "<td colspan=2>", "<p title='a b'>",
+                "<!DOCTYPE html PUBLIC \"a\" \"b\">", "<meta charset=utf-8 >", "</p >", "<br />", "&#38;#38;", "<font size=7>", "&#0065;",
+                "<input type=hidden value=1>", "a &#169; b", "<ol start=3>", "<h1>2 b</h1>"]
+
+
+def class_lookalike(rng, atoms):
+    """Replace one ASCII digit or space of an atom by a non-ASCII character of the same Unicode class."""
+    idx = [k for k, a in enumerate(atoms) if any(c.isdigit() and c.isascii() or c == " " for c in a)]
+    if not idx:
+        return atoms
+    k = rng.choice(idx)
+    a = atoms[k]
+    pos = [j for j, c in enumerate(a) if (c.isdigit() and c.isascii()) or c == " "]
+    # prefer a digit that is not the first of its run (the first one is often checked separately)
+    later = [j for j in pos if a[j] != " " and j > 0 and a[j - 1].isdigit()]
+    j = rng.choice(later) if later and rng.random() < 0.6 else rng.choice(pos)
+    c = a[j]
+    rep = rng.choice(_SPACE_LOOKALIKES) if c == " " else chr(rng.choice(_DIGIT_LOOKALIKES) + int(c))
+    return atoms[:k] + [a[:j] + rep + a[j + 1:]] + atoms[k + 1:]
+
+
 def soup(rng, surrogates_ok=False, max_atoms=40, long_prob=0.05):
     """A list of atoms."""
     weights = make_weights(rng)
@@ -186,6 +213,12 @@ def soup(rng, surrogates_ok=False, max_atoms=40, long_prob=0.05):
         atoms = fold_lookalike(rng, atoms)
     elif rng.random() < 0.03:
         atoms = fold_lookalike(rng, atoms)
+    r2 = rng.random()
+    if r2 < 0.08:
+        atoms = atoms[:rng.randint(0, 3)] + [rng.choice(_CLASS_ATOMS)] + atoms[3:6]
+        atoms = class_lookalike(rng, atoms)
+    elif r2 < 0.11:
+        atoms = class_lookalike(rng, atoms)
     if rng.random() < long_prob:
         atoms = _make_long(rng, atoms, surrogates_ok)
     return atoms
